@@ -245,10 +245,12 @@ Definition covered (s : store) (ls : list sleaf) (todo : list upload) : Prop :=
   complete_exact s ls /\
   forall u, In u todo -> immutable (u_opt u) = true /\ exists a, tneeded (len ls) a /\ u_key u = tpath a.
 
-(* T2, first half: every staging object is a bundle of immutable tile uploads for its size *)
+(* every upload of a staging bundle is immutable and addresses a tile of a tree of that size *)
 Definition shape (n : N) (ups : list upload) : Prop :=
   forall u, In u ups -> immutable (u_opt u) = true /\ exists a, tneeded n a /\ u_key u = tpath a.
 
+(* T2, first half: every staging object is the upload bundle of a round that extended a tree
+   which is complete in the store to a tree with that size and root *)
 Definition staged_ok (s : store) : Prop :=
   forall n root o, n < n63 -> lookup s (staging_path n root) = Some o ->
     exists ls ups, o = OS ups /\ len ls = n /\ root = mroot (leaf_hashes ls) /\ bundle_for s ls ups.
